@@ -63,11 +63,35 @@ def _len_series(df):
     return pd.Series([len(df)], dtype="int64")
 
 
+def _stale_twin(ddf):
+    """True if a column selection of ``ddf`` hangs on ANOTHER, earlier collection.
+
+    Harness artefact, not a case of the properties: hand-cut frames are built with ``dd.from_map(vf.frames._Piece(...))``.
+    ``FromMap._name`` is ``funcname(func) + token`` and funcname of a callable INSTANCE is its repr (memory address), while
+    every derived expression is named by the content token alone.  When hypothesis generates the same frame spec a second
+    time and expressions of the first build are still alive (reference cycles waiting for the garbage collector; dask keeps
+    live expressions in a weak cache by name), ``ddf['d']`` of the new frame (any column whose selection is still alive) is the cached Projection of the OLD FromMap:
+    dask then sees two unrelated collections, aligns them by a hash shuffle and (duplicate index) fails with 'cannot
+    reindex on an axis with duplicate labels' - depending on what else is alive in the process, so the case does not
+    replay.  The quantifier of the properties ranges over frames, partitionings and programs, not over garbage."""
+    return any(ddf[c].expr.frame is not ddf.expr for c in ddf.columns)
+
+
 def _build_case(fspec, clear_div):
     c = Case()
     c.spec = fspec
     c.pdf = F.build_pdf(fspec)
     ddf = F.build_ddf(fspec, c.pdf)
+    if _stale_twin(ddf):
+        import gc
+
+        del ddf
+        _CACHE.pop("case", None)
+        gc.collect()
+        count("stale-twin-collected")
+        ddf = F.build_ddf(fspec, c.pdf)
+        if _stale_twin(ddf):
+            raise Reject("an equal from_map collection of an earlier case is still alive in this process")
     if clear_div:
         ddf = ddf.clear_divisions()
     c.ddf = ddf
